@@ -19,6 +19,9 @@ pub struct Round {
     pub cfg: Cfg,
     pub setup: Vec<HLine>,
     pub body: Vec<HLine>,
+    /// the round was abandoned after some adds (no encode / decode); the next round starts with a
+    /// (re)configuration while shards are still pending
+    pub abandoned: bool,
 }
 
 pub fn flatten(rounds: &[Round]) -> Vec<HLine> {
@@ -182,10 +185,15 @@ pub fn enc_history(rng: &mut Prng, o: &HistOpts) -> Vec<Round> {
         let c = reconfig(rng, o, "E", None, &mut out);
         cur = c;
     }
+    let mut prev_abandoned = false;
     for round in 0..o.rounds {
-        if round > 0 && rng.chance(2, 3) {
+        if round > 0 && (prev_abandoned || rng.chance(2, 3)) {
             let before = cur.clone();
-            let c = reconfig(rng, o, "E", cur.as_ref(), &mut out);
+            let mut c = reconfig(rng, o, "E", cur.as_ref(), &mut out);
+            // after an abandoned round the object must really be reconfigured: retry until it succeeds
+            while prev_abandoned && c.is_none() && !(out.last().unwrap().line.contains(" new ") || out.last().unwrap().line.contains(" renew ")) {
+                c = reconfig(rng, o, "E", cur.as_ref(), &mut out);
+            }
             let last = out.last().unwrap().line.clone();
             if let Some(c) = c {
                 cur = Some(c);
@@ -201,6 +209,15 @@ pub fn enc_history(rng: &mut Prng, o: &HistOpts) -> Vec<Round> {
         }
         let c = cur.clone().unwrap();
         let setup = std::mem::take(&mut out);
+        prev_abandoned = round + 1 < o.rounds && rng.chance(1, 6);
+        if prev_abandoned {
+            let n = rng.below(c.k + 1);
+            for _ in 0..n {
+                out.push(HLine { line: format!("E add {}", to_hex(&rng.bytes(c.sb))), expect_fail: false });
+            }
+            rounds.push(Round { cfg: c, setup, body: std::mem::take(&mut out), abandoned: true });
+            continue;
+        }
         let mut added = 0;
         while added < c.k {
             if rng.below(1000) < o.p_fail / 4 {
@@ -225,7 +242,7 @@ pub fn enc_history(rng: &mut Prng, o: &HistOpts) -> Vec<Round> {
             out.push(HLine { line: format!("E reset {} {} {}", c.k, c.r, bad_size(rng)), expect_fail: true });
         }
         out.push(HLine { line: "E encode".into(), expect_fail: false });
-        rounds.push(Round { cfg: c, setup, body: std::mem::take(&mut out) });
+        rounds.push(Round { cfg: c, setup, body: std::mem::take(&mut out), abandoned: false });
     }
     rounds
 }
@@ -240,10 +257,14 @@ pub fn dec_history(rng: &mut Prng, o: &HistOpts) -> Vec<Round> {
     while cur.is_none() {
         cur = reconfig(rng, o, "D", None, &mut out);
     }
+    let mut prev_abandoned = false;
     for round in 0..o.rounds {
-        if round > 0 && rng.chance(2, 3) {
+        if round > 0 && (prev_abandoned || rng.chance(2, 3)) {
             let before = cur.clone();
-            let c = reconfig(rng, o, "D", cur.as_ref(), &mut out);
+            let mut c = reconfig(rng, o, "D", cur.as_ref(), &mut out);
+            while prev_abandoned && c.is_none() && !(out.last().unwrap().line.contains(" new ") || out.last().unwrap().line.contains(" renew ")) {
+                c = reconfig(rng, o, "D", cur.as_ref(), &mut out);
+            }
             let last = out.last().unwrap().line.clone();
             if let Some(c) = c {
                 cur = Some(c);
@@ -270,6 +291,21 @@ pub fn dec_history(rng: &mut Prng, o: &HistOpts) -> Vec<Round> {
         rng.shuffle(&mut order);
         let mut done: Vec<(bool, usize)> = vec![];
         let n_total = order.len();
+        prev_abandoned = round + 1 < o.rounds && rng.chance(1, 5);
+        if prev_abandoned {
+            // pending shards (incl. from the tail of both sections), then no decode: either too few
+            // shards followed by a failing decode, or simply walking away
+            let keep = rng.below(order.len() + 1);
+            for (is_o, i) in order.iter().take(keep) {
+                let bytes = if *is_o { &originals[*i] } else { &recovery[*i] };
+                out.push(HLine { line: format!("D {} {} {}", if *is_o { "addo" } else { "addr" }, i, to_hex(bytes)), expect_fail: false });
+            }
+            if keep < c.k && rng.chance(1, 2) {
+                out.push(HLine { line: "D decode".into(), expect_fail: true });
+            }
+            rounds.push(Round { cfg: c, setup, body: std::mem::take(&mut out), abandoned: true });
+            continue;
+        }
         for (n, (is_o, i)) in order.iter().enumerate() {
             let pf = o.p_fail / 5;
             if rng.below(1000) < pf {
@@ -319,7 +355,7 @@ pub fn dec_history(rng: &mut Prng, o: &HistOpts) -> Vec<Round> {
             out.push(HLine { line: format!("D reset {} {} {}", c.k, c.r, bad_size(rng)), expect_fail: true });
         }
         out.push(HLine { line: "D decode".into(), expect_fail: false });
-        rounds.push(Round { cfg: c, setup, body: std::mem::take(&mut out) });
+        rounds.push(Round { cfg: c, setup, body: std::mem::take(&mut out), abandoned: false });
     }
     rounds
 }
